@@ -303,7 +303,7 @@ class GVN:
                 return self.single(self.atom("seq", tuple(
                     [f_key(self.lin1(self._n(x), lambda a: self.atom("elem", a))) for x in src.args])))
             inner = self._n(src)
-            return self.lin1(inner, lambda a: self.atom("elem", a))
+            return self.lin1(inner, self._elem)
         if op == "scan_carry":
             return self.single(self.atom("carry", f_key(self._n(t.args[0]))))
         if op == "phi":
@@ -366,6 +366,16 @@ class GVN:
             return self.single(self.atom("pow", f_key(a), self.sshow(e, maxdepth=3)))
         a, b = self._n(l), self._n(r)
         return self.single(self.atom("binop", o, f_key(a), f_key(b)))
+
+    def _elem(self, a: int) -> int:
+        """one element along the leading (mapped) axis.  X.reshape(-1, r1, r2, ...) keeps the leading axis of a two-axis
+        X (the form every such reshape in the package has: (n, r1*r2*...) -> (n, r1, r2, ...)), so its element is the
+        element of X reshaped to (r1, r2, ...): reshaping the whole stack before the map and each element inside it
+        are numbered alike."""
+        k = self.atom_keys[a]
+        if k[0] == "reshape" and isinstance(k[2], str) and k[2].startswith("-1,") and k[2].count(",") >= 2:
+            return self.atom("reshape", self.atom("elem", k[1]), k[2][3:])
+        return self.atom("elem", a)
 
     def _prod(self, x: int, y: int):
         """Commutative, associative elementwise / scalar product of two atoms."""
@@ -444,6 +454,11 @@ class GVN:
             k = self.atom_keys[a]
             if i is not None and k[0] in ("seq", "stackseq") and -len(k[1]) <= i < len(k[1]):
                 return dict(k[1][i])
+            if i is not None and k[0] == "stack" and isinstance(k[1], int) and k[1] != 0:
+                # a mapped function that returns a tuple: component i of the result is the stack of component i
+                k2 = self.atom_keys[k[1]]
+                if k2[0] == "seq" and -len(k2[1]) <= i < len(k2[1]):
+                    return {(self.atom("stack", a2) if a2 != 0 else self.atom("stack", 0)): c2 for a2, c2 in dict(k2[1][i]).items()}
             r = self.atom("get", a, key)
             if self._sub and self.hyp:
                 rw = self._atom_rewrites().get(r)
@@ -529,6 +544,12 @@ class GVN:
                     if full is not None:
                         return full
                 return self.lin1(self._n(recv), lambda a: self.atom("sum", a, key))
+            if meth == "transpose":
+                # x.transpose(0, 3, 2, 1) / x.transpose((0, 3, 2, 1)) is the axis permutation; no argument: reversal
+                axes = list(pos[0].args) if len(pos) == 1 and pos[0].op in ("tuple", "list") else list(pos)
+                if axes and all(x.op == "const" and isinstance(x.args[0], int) for x in axes):
+                    perm = tuple(x.args[0] for x in axes)
+                    return self.lin1(self._n(recv), lambda a: self.atom("perm", a, perm) if a != 0 else 0)
             if meth in ("diagonal", "trace", "flatten", "ravel", "transpose"):
                 key = ",".join(self.sshow(x, maxdepth=3) for x in pos)
                 return self.lin1(self._n(recv), lambda a: self.atom(meth, a, key))
@@ -662,6 +683,12 @@ class GVN:
             return None
         for a, c in f.items():
             k = self.atom_keys[a]
+            if k[0] == "prod" and len(k[1]) >= 2 and all(self.atom_keys[x][0] not in ("const",) for x in k[1]):
+                # sum(A * B) over every axis is the full contraction of A and B over one shared multi-index ("*"): the
+                # form einsum("ia,ia", A, B) takes as well (see _canon_einsum)
+                at = self._canon_einsum([(x, ("*",)) for x in k[1]], ())
+                out[at] = c_add(out.get(at, ZERO), c)
+                continue
             if k[0] != "einsum":
                 return None
             at = self._canon_einsum(list(k[1]), ())
@@ -718,6 +745,14 @@ class GVN:
                     if {"elem", "carry"} & self._kinds_below(kb[1]):
                         return None
                     new.append((kb[1], (g,) + tuple(subs)))
+                    saw = True
+                elif kb[0] == "reshape" and isinstance(kb[1], int) and self.atom_keys[kb[1]][0] == "elem" and \
+                        isinstance(self.atom_keys[kb[1]][1], int) and isinstance(kb[2], str):
+                    # the scanned element reshaped (see _elem): the stack is the scanned array reshaped with its leading axis kept
+                    src = self.atom_keys[kb[1]][1]
+                    if {"elem", "carry"} & self._kinds_below(src):
+                        return None
+                    new.append((self.atom("reshape", src, "-1," + kb[2]), (g,) + tuple(subs)))
                     saw = True
                 else:
                     if {"elem", "carry"} & self._kinds_below(b):
@@ -803,6 +838,10 @@ class GVN:
     def _canon_einsum(self, ops: List[Tuple[int, Tuple[str, ...]]], out: Tuple[str, ...]) -> int:
         if not ops:
             return 0
+        if not out and len(ops) >= 2 and len({subs for _, subs in ops}) == 1 and len(set(ops[0][1])) == len(ops[0][1]):
+            # every operand carries the same distinct letters and nothing is left over: the full contraction of an
+            # elementwise product, whatever the rank -- one shared multi-index
+            ops = [(a, ("*",)) for a, _ in ops]
         # order operands by atom id; among equal atoms try all permutations, keep the smallest
         ops_sorted = sorted(ops, key=lambda x: x[0])
         groups: List[List[Tuple[int, Tuple[str, ...]]]] = []
